@@ -19,6 +19,7 @@ const (
 	sGrow     // memory.grow 1 inline
 	sIf       // if (c) A else B
 	sLoop2    // loop executing A twice
+	sTouch0   // memory.fill(0, 0, 0): in bounds on every memory (even an empty one), makes the function load the memory base
 )
 
 type step struct {
@@ -33,6 +34,7 @@ type placement struct {
 	Grows   bool // contains a memory.grow (directly or in a callee)
 	Cond    bool // uses the condition parameter (run with c=0 and c=1)
 	Implied bool // on every path an earlier access of the same base value has a ceiling >= the ceiling of the access under test
+	Touch0  bool // starts with a zero-length bulk operation (only generated for configurations that ask for it)
 	Barrier bool // a call, memory.grow, control-flow merge or loop header lies between that earlier access and the access under test
 	build   func(ceil uint64) []step
 }
@@ -112,7 +114,15 @@ var placements = []*placement{
 	{Name: "loop:access+callgrow", Grows: true, build: func(c uint64) []step {
 		return seq(step{K: sLoop2, A: []step{acc, {K: sCallGrow}}})
 	}},
+	// a zero-length fill is the only "touch" that succeeds on an empty memory (whose base pointer is nil until it grows)
+	{Name: "touch0:grow", Grows: true, Touch0: true, build: func(c uint64) []step { return seq(step{K: sTouch0}, step{K: sGrow}, acc) }},
+	{Name: "touch0:callgrow", Grows: true, Touch0: true, build: func(c uint64) []step { return seq(step{K: sTouch0}, step{K: sCallGrow}, acc) }},
 }
+
+// placements of the capacity/maximum configuration slice (level 3): everything around calls and growth, plus a few others
+var capPlacements = []string{"first", "same-block:pre-equal", "call:pre-equal", "call:pre-smaller", "call:same-access-twice",
+	"callgrow:pre-equal", "callgrow:pre-smaller0", "grow:pre-equal", "grow:pre-smaller0", "diamond:equal|larger",
+	"loop:access+callgrow", "touch0:grow", "touch0:callgrow"}
 
 func placementByName(n string) *placement {
 	for _, p := range placements {
@@ -128,6 +138,7 @@ var reducedPlacements = []string{"first", "call:pre-equal", "grow:pre-smaller0",
 
 // bulk operations never consult the known-safe-bounds cache; only reload-related placements make sense
 var bulkPlacements = []string{"first", "call:pre-equal", "call:same-access-twice", "callgrow:pre-smaller0", "grow:pre-equal", "loop:access+callgrow"}
+var bulkTouch0Placements = []string{"touch0:grow", "touch0:callgrow"}
 
 // ---------------------------------------------------------------- base forms
 
@@ -253,6 +264,8 @@ func emitSteps(a *wb.Asm, s *fnSpec, steps []step, bl uint32) {
 			a.Call(fnGrow1)
 		case sGrow:
 			a.I32Const(1).MemoryGrow().Drop()
+		case sTouch0:
+			a.I32Const(0).I32Const(0).I32Const(0).MemoryFill()
 		case sIf:
 			a.LocalGet(lC).If(wb.Void)
 			emitSteps(a, s, st.A, bl)
@@ -296,8 +309,16 @@ func memKindByName(n string) int {
 	return -1
 }
 
-func memLimits(kind int, pages uint32) wb.Limits {
+// memLimits: shared memories always declare a maximum; unshared ones only when declMax is set (min < max).
+func memLimits(kind int, pages uint32, declMax bool) wb.Limits {
 	l := wb.Limits{Min: pages}
+	if declMax && (kind == mkLocal || kind == mkImported) {
+		l.HasMax = true
+		l.Max = pages + 16
+		if l.Max > 65536 {
+			l.Max = 65536
+		}
+	}
 	if kind == mkShared || kind == mkImportedShared {
 		l.HasMax, l.Shared = true, true
 		l.Max = pages + 16
@@ -308,16 +329,16 @@ func memLimits(kind int, pages uint32) wb.Limits {
 	return l
 }
 
-func maxPagesOf(kind int, pages uint32) uint32 {
-	if l := memLimits(kind, pages); l.HasMax {
+func maxPagesOf(kind int, pages uint32, declMax bool) uint32 {
+	if l := memLimits(kind, pages, declMax); l.HasMax {
 		return l.Max
 	}
 	return 65536
 }
 
-func buildModule(kind int, pages uint32, specs []*fnSpec) []byte {
+func buildModule(kind int, pages uint32, declMax bool, specs []*fnSpec) []byte {
 	m := &wb.Module{}
-	lim := memLimits(kind, pages)
+	lim := memLimits(kind, pages, declMax)
 	if kind == mkImported || kind == mkImportedShared {
 		m.Imports = append(m.Imports, wb.Import{Module: "mem", Name: "memory", Kind: wb.KindMemory, Mem: lim})
 	} else {
@@ -341,9 +362,9 @@ func buildModule(kind int, pages uint32, specs []*fnSpec) []byte {
 	return m.Encode()
 }
 
-func buildMemModule(kind int, pages uint32) []byte {
+func buildMemModule(kind int, pages uint32, declMax bool) []byte {
 	m := &wb.Module{}
-	lim := memLimits(kind, pages)
+	lim := memLimits(kind, pages, declMax)
 	m.Mem = &lim
 	m.Exports = append(m.Exports, wb.Export{Name: "memory", Kind: wb.KindMemory, Idx: 0})
 	return m.Encode()
